@@ -316,6 +316,65 @@ def run(chk: Check, n):
                             model_trace=model_trace, recorded=[(k, r, c[:12]) for k, r, c in ev]))
 
 
+def special(chk: Check):
+    """definitions the random generator does not reach: a very WIDE experiment ("however many metrics, columns") and an
+    experiment whose public `metrics` dict was changed after construction; decided on the recorded fetches alone"""
+    import numpy as np
+    import polars as pl
+    import tea_tasting as tt
+    rng = chk.rng
+    nprng = np.random.default_rng(rng.randint(0, 2**31))
+    nrows = 40
+    variant = [j % 2 for j in range(nrows)]
+
+    def count_fetches(what, exp_, data_, inp, want_rows, power=False):
+        with record_fetches() as ev:
+            try:
+                if power:
+                    exp_.solve_power(data_, "power")
+                else:
+                    exp_.analyze(data_)
+            except Exception as ex:  # noqa: BLE001
+                chk.fail(f"{what} raised on a valid definition", dict(input=inp, error=repr(ex)))
+                return
+        aggs = [(k, r) for k, r, c in ev if any(x.startswith(("_count", "_mean__", "_var__", "_cov__")) for x in c)]
+        others = [(k, r, c[:6]) for k, r, c in ev if not any(x.startswith(("_count", "_mean__", "_var__", "_cov__")) for x in c)]
+        if len(aggs) != 1 or others or aggs[0][1] != want_rows:
+            chk.fail(f"{what}: the backend was asked for more than the one aggregate query",
+                     dict(input=inp, recorded=[(k, r) for k, r, _ in ev], expected=f"one result set of {want_rows} row(s)"))
+    # ---- wide definitions
+    for width, kind in ((140, "mean"), (24, "ratio_cov")):
+        ncol = width if kind == "mean" else 4 * width
+        cols = {"variant": variant, **{f"c{j}": (nprng.normal(3, 1, nrows) + 5).tolist() for j in range(ncol)}}
+        data = pl.DataFrame(cols).lazy()
+        if kind == "mean":
+            ms = {f"m{j}": tt.Mean(f"c{j}") for j in range(width)}
+            pm = {f"m{j}": tt.Mean(f"c{j}", rel_effect_size=0.1) for j in range(width)}
+        else:
+            ms = {f"m{j}": tt.RatioOfMeans(f"c{4*j}", f"c{4*j+1}", f"c{4*j+2}", f"c{4*j+3}") for j in range(width)}
+            pm = {f"m{j}": tt.RatioOfMeans(f"c{4*j}", f"c{4*j+1}", f"c{4*j+2}", f"c{4*j+3}", rel_effect_size=0.1)
+                  for j in range(width)}
+        inp = dict(backend="polars-lazy", metrics=f"{width} x {kind} on distinct columns", rows=nrows, variants=2)
+        chk.case(("wide", kind, width))
+        chk.branch("wide:" + kind)
+        count_fetches("analyze (wide definition)", tt.Experiment(ms), data, inp, 2)
+        count_fetches("solve_power (wide definition)", tt.Experiment(pm), data, inp, 1, power=True)
+    # ---- the metrics dict changed after construction
+    cols = {"variant": variant, **{c: (nprng.normal(3, 1, nrows) + 5).tolist() for c in "abcd"}}
+    data = pl.DataFrame(cols).lazy()
+    for how in ("added", "replaced"):
+        exp = tt.Experiment(first=tt.Mean("a"), second=tt.Mean("b", "c"))
+        if how == "added":
+            exp.metrics["third"] = tt.RatioOfMeans("c", "d")
+        else:
+            exp.metrics["first"] = tt.RatioOfMeans("c", "d", "a", "b")
+        inp = dict(backend="polars-lazy", metrics=f"Experiment(first=Mean, second=Mean+cov); a metric {how} in "
+                   "experiment.metrics after construction", rows=nrows, variants=2)
+        chk.case(("mutated-metrics", how))
+        chk.branch("metrics-dict:" + how)
+        count_fetches(f"analyze (metric {how} after construction)", exp, data, inp, 2)
+
+
 def check_events(chk, what, inp, ev, sql, model_trace, nv, nrows, backend):
     """recorded materialisations against the model's trace"""
     real = []
@@ -384,6 +443,7 @@ def main():
         common.lake_build(["TeaTasting.Model.Experiment", "TeaTasting.Driver.Proto"])
     q = chk.tier == "quick"
     run(chk, 24 if q else 160)
+    special(chk)
     chk.cov["rule"] = ("definitions: 1..6 aggregated metrics from {Mean, Mean+cov, ratio, ratio+cov, SampleRatio, custom "
                        "AggrCols} + 0..3 row-level metrics from {Quantile, Bootstrap(2 columns), custom, custom both}, "
                        "overlapping columns out of 6 (+2 unused columns); 2..4 variants (int / str ids), all pairs; "
